@@ -541,6 +541,8 @@ func runC01(c *Ctx) {
 	checkSeekHeightNonNegative(c, "C01-R1")
 	// "that no known transaction spends" is read off the credit's spent bit by the correction passes
 	checkFlagBytesReadThroughMasks(c, "C01-R1")
+	// "the credited outputs ... each": a credit the wallet asks to record is recorded, whatever it is worth
+	checkExportedWrapperAlwaysRunsWorker(c, "C01-R2")
 	checkArithmeticAccumulators(c, "C01-R2", "wtxmgr")
 
 	// fetchCredits flag bindings: the flags are identified by role (which test they switch off), not by name or
